@@ -9,23 +9,59 @@ import (
 	"github.com/KevoDB/kevo/pkg/zzverif/vsym"
 )
 
-// c20Config builds a configuration whose validity-relevant fields sit at symbolic values.
+// c20Config builds a configuration whose numeric fields all sit at symbolic values (the validity-relevant ones and
+// the ones Validate does not look at alike: a stored setting must come back whatever its value, zero included).
 func c20Config(dir string) *Config {
 	c := NewDefaultConfig(dir)
+	c.Version = symInt("Version")
+	c.WALSyncMode = SyncMode(vsym.IntRange("sync", 0, 2))
+	c.WALSyncBytes = symInt64("WALSyncBytes")
+	c.WALMaxSize = symInt64("WALMaxSize")
 	c.MemTableSize = symInt64("MemTableSize")
 	c.MaxMemTables = symInt("MaxMemTables")
+	c.MaxMemTableAge = symInt64("MaxMemTableAge")
+	c.MemTablePoolCap = symInt("MemTablePoolCap")
+	c.SSTableBlockSize = symInt("SSTableBlockSize")
+	c.SSTableIndexSize = symInt("SSTableIndexSize")
+	c.SSTableMaxSize = symInt64("SSTableMaxSize")
+	c.SSTableRestartSize = symInt("SSTableRestartSize")
+	c.CompactionLevels = symInt("CompactionLevels")
 	c.CompactionRatio = vsym.Float64("CompactionRatio")
+	c.CompactionThreads = symInt("CompactionThreads")
+	c.CompactionInterval = symInt64("CompactionInterval")
+	c.MaxLevelWithTombstones = symInt("MaxLevelWithTombstones")
+	c.ReadOnlyTxTTL = symInt64("ReadOnlyTxTTL")
+	c.ReadWriteTxTTL = symInt64("ReadWriteTxTTL")
+	c.IdleTxTimeout = symInt64("IdleTxTimeout")
+	c.TxCleanupInterval = symInt64("TxCleanupInterval")
 	c.TxWarningThreshold = symInt("TxWarningThreshold")
 	c.TxCriticalThreshold = symInt("TxCriticalThreshold")
-	c.WALSyncMode = SyncMode(vsym.IntRange("sync", 0, 2))
 	return c
 }
 
+// c20Same compares every stored setting.
 func c20Same(a, b *Config) bool {
-	ok := a.Version == b.Version && a.WALDir == b.WALDir && a.SSTDir == b.SSTDir && a.WALSyncMode == b.WALSyncMode
+	ok := a.WALDir == b.WALDir && a.SSTDir == b.SSTDir && a.WALSyncMode == b.WALSyncMode
+	ok = vsym.And(ok, a.Version == b.Version)
+	ok = vsym.And(ok, a.WALSyncBytes == b.WALSyncBytes)
+	ok = vsym.And(ok, a.WALMaxSize == b.WALMaxSize)
 	ok = vsym.And(ok, a.MemTableSize == b.MemTableSize)
 	ok = vsym.And(ok, a.MaxMemTables == b.MaxMemTables)
+	ok = vsym.And(ok, a.MaxMemTableAge == b.MaxMemTableAge)
+	ok = vsym.And(ok, a.MemTablePoolCap == b.MemTablePoolCap)
+	ok = vsym.And(ok, a.SSTableBlockSize == b.SSTableBlockSize)
+	ok = vsym.And(ok, a.SSTableIndexSize == b.SSTableIndexSize)
+	ok = vsym.And(ok, a.SSTableMaxSize == b.SSTableMaxSize)
+	ok = vsym.And(ok, a.SSTableRestartSize == b.SSTableRestartSize)
+	ok = vsym.And(ok, a.CompactionLevels == b.CompactionLevels)
 	ok = vsym.And(ok, a.CompactionRatio == b.CompactionRatio)
+	ok = vsym.And(ok, a.CompactionThreads == b.CompactionThreads)
+	ok = vsym.And(ok, a.CompactionInterval == b.CompactionInterval)
+	ok = vsym.And(ok, a.MaxLevelWithTombstones == b.MaxLevelWithTombstones)
+	ok = vsym.And(ok, a.ReadOnlyTxTTL == b.ReadOnlyTxTTL)
+	ok = vsym.And(ok, a.ReadWriteTxTTL == b.ReadWriteTxTTL)
+	ok = vsym.And(ok, a.IdleTxTimeout == b.IdleTxTimeout)
+	ok = vsym.And(ok, a.TxCleanupInterval == b.TxCleanupInterval)
 	ok = vsym.And(ok, a.TxWarningThreshold == b.TxWarningThreshold)
 	ok = vsym.And(ok, a.TxCriticalThreshold == b.TxCriticalThreshold)
 	return ok
@@ -33,8 +69,8 @@ func c20Same(a, b *Config) bool {
 
 // VerifC20_SaveLoad: SaveManifest of a configuration with symbolic fields. A configuration violating a constraint
 // is rejected before anything is written (no manifest, no temporary file, an existing manifest untouched); one
-// that passes validation is stored and LoadConfigFromManifest gives it back unchanged (the JSON text itself is a
-// stub: round trip = identity), also via the Manifest type.
+// that passes validation is stored and LoadConfigFromManifest gives every setting back unchanged (the JSON text itself
+// is a stub; which fields reach the text and come back follows the struct tags), also via the Manifest type.
 func VerifC20_SaveLoad() {
 	dir := vsym.Dir()
 	os.MkdirAll(dir, 0755)
